@@ -118,6 +118,9 @@ COMPOSITES = {
     "length-key": {"params": [SID, dict(kind="lengthkey", name="lk", id="LK1", dop=U8),
                               V("data", dict(dt="A_UINT32", dct="paramlen", length_key="LK1")), TAIL],
                    "lengths": [8, 16, 24]},
+    "length-key-implicit": {"params": [SID, dict(kind="lengthkey", name="lk", id="LK2", dop=U8),
+                                       V("data", dict(dt="A_UINT32", dct="paramlen", length_key="LK2")),
+                                       TAIL], "lengths": [None]},
 }
 
 TBL = {"name": "tbl", "key_dop": U8, "rows": [
@@ -170,7 +173,8 @@ def gen_params(sx, params, path, shape, prop, omit=()):
         elif p["kind"] == "system" and not shape.get("clock"):
             vals[nm] = gen_dop(sx, p["dop"], q, shape, prop)
         elif p["kind"] == "lengthkey":
-            vals[nm] = shape["length"]
+            if shape["length"] is not None:
+                vals[nm] = shape["length"]
         elif p["kind"] == "tablestruct":
             row = shape["row"]
             key = [q for q in params if q["kind"] == "tablekey" and q["id"] == p["key"]][0]
@@ -189,7 +193,7 @@ def gen_dop(sx, d, path, shape, prop):
         return sx.int(nm, 0, (1 << d["bl"]) - 1)
     if k is None:
         if d.get("dct") == "paramlen":
-            bl = shape["length"]
+            bl = shape["length"] if shape["length"] is not None else 24
         else:
             bl = d["bl"]
         lim = 1 << (bl + 1)
@@ -254,8 +258,20 @@ def ref_params(p, origin, cursor, params, vals, at_end, env):
             n = p.put_bytes(pos, rq[prm["rqpos"]:prm["rqpos"] + prm["len"]])
         elif k == "lengthkey":
             d = prm["dop"]
-            n = p.put_field(pos, bitpos, d["bl"], vals[nm], d.get("hl") in (None, True))
-            env.setdefault("lengths", {})[prm["id"]] = vals[nm]
+            L = vals.get(nm)
+            if L is None:
+                # implicit key: the smallest number of whole bytes that holds the value
+                user = [q for q in params if q["kind"] == "value" and
+                        q["dop"].get("length_key") == prm["id"]][0]
+                v = vals[user["name"]]
+                L = 0
+                for nb in (3, 2, 1):
+                    if v < (1 << (8 * (nb - 1))):
+                        continue
+                    L = 8 * nb
+                    break
+            n = p.put_field(pos, bitpos, d["bl"], L, d.get("hl") in (None, True))
+            env.setdefault("lengths", {})[prm["id"]] = L
         elif k == "tablekey":
             ts = [q for q in params if q["kind"] == "tablestruct" and q["key"] == prm["id"]]
             row = vals[ts[0]["name"]][0] if ts else vals.get(nm)
@@ -290,6 +306,11 @@ def ref_dop(p, pos, bitpos, d, v, at_end, env):
         return p.put_field(pos, bitpos, d["bl"], v, d.get("hl") in (None, True))
     if k is None:
         bl = d["bl"] if d.get("dct") != "paramlen" else env["lengths"][d["length_key"]]
+        if bl == 0:
+            if v != 0:
+                raise odxref.Reject("non-zero value in a zero-length field")
+            p.ensure(pos)
+            return 0
         dom = odxref.int_domain(d["dt"], d.get("enc"), bl, v)
         if not dom:
             raise odxref.Reject("value not representable")
@@ -386,7 +407,7 @@ def expected(params, vals):
         elif k == "system":
             out[nm] = vals.get(nm) if vals.get(nm) is not None else None
         elif k == "lengthkey":
-            out[nm] = vals[nm]
+            out[nm] = vals.get(nm)
         elif k == "tablekey":
             ts = [q for q in params if q["kind"] == "tablestruct" and q["key"] == prm["id"]]
             out[nm] = vals[ts[0]["name"]][0]
@@ -625,11 +646,34 @@ def run_required(sx, cfg, env):
     sx.observe("free", free)
 
 
+def run_constant(sx, cfg, env):
+    """C08: a parameter that is not reported free (constants) cannot be set: supplying any value
+    other than its constant is rejected, supplying the constant is accepted"""
+    from odxtools.exceptions import OdxError
+    obj, spec = env["obj"], env["spec"]
+    shape = cfg["shape"]
+    vals = gen_params(sx, spec["params"], "", shape, "C08", omit=spec.get("omit", ()))
+    prm = [p for p in spec["params"] if p["name"] == cfg["const"]][0]
+    free = cfg["const"] in [p.short_name for p in obj.free_parameters]
+    sx.require(not free, "constant-is-not-reported-free")
+    c = sx.int("c", 0, (1 << 16) - 1)
+    vals[cfg["const"]] = c
+    try:
+        obj.encode(**vals)
+        ok = True
+    except OdxError:
+        ok = False
+    sx.cover("accepted" if ok else "rejected")
+    sx.require(ok == bool(c == prm["value"]), "non-free-parameter-only-accepts-its-constant")
+
+
 COMPOSITE_HARNESS = {
     "build": build_composite, "run": run_composite, "width": 80, "must_cover": ["accepted"],
     "limits": {"quick": explore.Limits(max_paths=3000, wall_s=200),
                "thorough": explore.Limits(max_paths=30000, wall_s=900)},
 }
+CONSTANT_HARNESS = {"build": build_composite, "run": run_constant, "width": 80,
+                    "must_cover": ["accepted", "rejected"]}
 REQUIRED_HARNESS = {"build": build_composite, "run": run_required, "width": 80,
                     "must_cover": ["omitted-ok", "omitted-rejected"]}
 
@@ -660,5 +704,10 @@ def configs_for(prop, tier, seed):
                 if p["kind"] in ("value", "lengthkey", "tablestruct"):
                     out.append({"id": f"required/{name}/drop-{p['name']}", "harness": "required",
                                 "what": "request", "name": name, "shape": sh, "drop": p["name"],
+                                "prop": prop, "build": {"what": "request", "name": name}})
+                if p["kind"] in ("const", "physconst") and name in ("two-values", "physconst-reserved",
+                                                                     "out-of-order", "structure"):
+                    out.append({"id": f"constant/{name}/{p['name']}", "harness": "constant",
+                                "what": "request", "name": name, "shape": sh, "const": p["name"],
                                 "prop": prop, "build": {"what": "request", "name": name}})
     return out
